@@ -174,10 +174,20 @@ func runConfig(run *mon.Run, cfg config) {
 	// values that a ToStaticTTL-tagged member of a mixed batch fetched over the wire itself (it was neither a hit nor
 	// a waiter of somebody else's fetch): the entries later hits are served from were committed by that batch
 	mixedFills := map[string]bool{} // guarded by hitsMu
-	var mixedBatches, mixedTaggedFetched atomic.Int64
+	// key + command -> the last fetch of that entry this driver saw complete was such a member's; a hit (whatever it
+	// carries) recorded while this is set was, as far as the callers can tell, served from the entry that batch committed
+	lastFillMixed := map[string]bool{} // guarded by hitsMu
+	var mixedBatches, mixedTaggedFetched, hitsAfterMixedFill atomic.Int64
 	record := func(call, k string, cm rcmd, msg rueidis.RedisMessage, inv map[int64]int, dead map[int64]bool) {
 		if msg.IsNil() || msg.Error() != nil {
 			return
+		}
+		if msg.IsCacheHit() {
+			hitsMu.Lock()
+			if lastFillMixed[k+"\x00"+cm.id] {
+				hitsAfterMixedFill.Add(1)
+			}
+			hitsMu.Unlock()
 		}
 		s, err := msg.ToString()
 		if err != nil {
@@ -207,12 +217,13 @@ func runConfig(run *mon.Run, cfg config) {
 			hitsMu.Unlock()
 		} else {
 			missCount.Add(1)
+			hitsMu.Lock()
+			lastFillMixed[k+"\x00"+cm.id] = cm.inMixed && cm.tagged
 			if cm.inMixed && cm.tagged {
 				mixedTaggedFetched.Add(1)
-				hitsMu.Lock()
 				mixedFills[cm.id+"\x00"+s] = true
-				hitsMu.Unlock()
 			}
+			hitsMu.Unlock()
 		}
 	}
 	// some fetches are slow to start, so that invalidations arrive while cache entries are still pending
@@ -422,6 +433,7 @@ func runConfig(run *mon.Run, cfg config) {
 	run.Observe("multicache_batches_mixing_static_and_plain_"+store, mixedBatches.Load())
 	run.Observe("mixed_batch_static_members_fetched_on_wire_"+store, mixedTaggedFetched.Load())
 	run.Observe("hits_on_values_fetched_by_static_member_of_mixed_batch_"+store, mixedFillHits)
+	run.Observe("hits_following_fetch_by_static_member_of_mixed_batch_"+store, hitsAfterMixedFill.Load())
 	run.Observe("invalidation_pushes_on_wire", int64(totalPush))
 	m.mu.Lock()
 	processed, lost := 0, 0
@@ -468,7 +480,7 @@ func TestC06(t *testing.T) {
 		runConfig(run, cfg)
 	}
 	run.Require("hits_checked", "invalidations_processed_by_client", "invalidation_pushes_on_wire", "connections_lost",
-		"mixed_batch_static_members_fetched_on_wire_adapter", "hits_on_values_fetched_by_static_member_of_mixed_batch_adapter",
-		"mixed_batch_static_members_fetched_on_wire_lru", "hits_on_values_fetched_by_static_member_of_mixed_batch_lru")
+		"mixed_batch_static_members_fetched_on_wire_adapter", "hits_following_fetch_by_static_member_of_mixed_batch_adapter",
+		"mixed_batch_static_members_fetched_on_wire_lru", "hits_following_fetch_by_static_member_of_mixed_batch_lru")
 	_ = drv.Tail
 }
